@@ -35,11 +35,11 @@ func (g *gen) planCustomOptions(f *fileCtx) {
 	if !f.wkDesc {
 		return
 	}
-	for k, n := 0, g.n(0, 3, "custom-options"); k < n; k++ {
+	g.repeat("custom-options", 0, 3, func(k int) {
 		co := &customOpt{target: pick(g, customTargets, "option-target"), num: int32(77000 + 10*f.idx + k),
 			kind: pick(g, []descriptorpb.FieldDescriptorProto_Type{descriptorpb.FieldDescriptorProto_TYPE_INT32, descriptorpb.FieldDescriptorProto_TYPE_BOOL, descriptorpb.FieldDescriptorProto_TYPE_STRING}, "option-kind")}
 		f.opts = append(f.opts, co)
-	}
+	})
 }
 
 // customOptionDecls emits the extension declarations of the planned custom options (file scope).
